@@ -264,6 +264,42 @@ func genDecInputs(g *groups.G, rng *kc.Rng, reps int, qrP *big.Int) []decInput {
 			"c7176a703d4dd84fba3c0b760d10670f2a2053fa2c39ccc64ec7fd7792ac03fa"} {
 			add("small-order", mustHex(h))
 		}
+		// near misses of the decoder's final comparison: for a y with no point (u/v a non-square) the candidate
+		// root x satisfies v·x² = ±√-1·u, so the two values the decoder tests against zero are (±√-1 - 1)·u and
+		// (±√-1 + 1)·u. Choose u so that one of them is a sparse value δ (a single bit, a multiple of 2^k with
+		// the low words zero, a value confined to one word): a comparison that skips or folds away part of
+		// the field element accepts such a y although nothing lies on the curve there.
+		{
+			P := decEdP
+			rho := new(big.Int).Exp(big.NewInt(2), new(big.Int).Rsh(new(big.Int).Sub(P, big.NewInt(1)), 2), P)
+			var deltas []*big.Int
+			for _, k := range []uint{0, 1, 8, 25, 26, 51, 63, 64, 102, 128, 153, 191, 192, 200, 204, 224, 230, 248, 254} {
+				deltas = append(deltas, new(big.Int).Lsh(big.NewInt(1), k))
+				deltas = append(deltas, new(big.Int).Lsh(new(big.Int).SetUint64(rng.U64()>>2|1), k))
+			}
+			cnt := 0
+			for _, d := range deltas {
+				d = new(big.Int).Mod(d, P)
+				for _, sg := range []int64{1, -1} {
+					for _, off := range []int64{-1, 1} {
+						f := new(big.Int).Mul(rho, big.NewInt(sg))
+						f.Add(f, big.NewInt(off)).Mod(f, P)
+						u := new(big.Int).Mul(d, new(big.Int).ModInverse(f, P))
+						u.Mod(u, P)
+						y := new(big.Int).ModSqrt(new(big.Int).Add(u, big.NewInt(1)), P)
+						if y == nil {
+							continue
+						}
+						for _, yy := range []*big.Int{y, new(big.Int).Sub(P, y)} {
+							add("final-check-near-miss", decLE(yy, 32))
+							add("final-check-near-miss", decLE(new(big.Int).Add(yy, new(big.Int).Lsh(big.NewInt(1), 255)), 32))
+							cnt++
+						}
+					}
+				}
+			}
+			_ = cnt
+		}
 		for r := 0; r < 16*reps+16; r++ {
 			add("random-32", rng.Bytes(32))
 		}
